@@ -338,7 +338,9 @@ def call(node: ast.Call, env: Env) -> Term:
         recv = T(f.value, env)
         name = f.attr
     elif isinstance(f, ast.Name):
-        if f.id in env.names:
+        if f.id in env.names and env.names[f.id][0] == "name":
+            name = env.names[f.id][1]
+        elif f.id in env.names:
             recv = env.names[f.id]
             name = "<call>"
         else:
